@@ -360,8 +360,12 @@ class Call:
         """match the short name; `Trait::method` also matches the qualified form `<X as Trait>::method`"""
         s = self.short
         alt = None
-        if s.startswith("<") and " as " in s and ">::" in s:
+        if " as " in s and ">::" in s and (s.startswith("<") or "::<" in s):
             alt = s[s.index(" as ") + 4:].replace(">::", "::", 1)
+            # drop the trait's own generic arguments: `Add<&KNumber>::add` -> `Add::add`
+            if "<" in alt.split("::")[0]:
+                head, _, tail = alt.partition("::")
+                alt = head.split("<")[0] + "::" + tail
         for n in names:
             if s == n or s.endswith("::" + n) or (alt is not None and (alt == n or alt.endswith("::" + n))):
                 return True
